@@ -9,7 +9,7 @@
      filt    dlti_filter / transfer_function / difference_equation coefficients
      resp    DLTIFilter.response with initial conditions    vs  respRun
      ini     zdomain_initial_response / initial_response    vs  iniNum / series
-     seq     Sequence.lfilter / convolve                    vs  lfilterPy / convolvePy
+     seq     Sequence.lfilter / convolve                    vs  lfilterPy / convolvePy (recursion at rest)
      dft     x.DFT(N) at every k (numeric N, symbolic N)    vs  dft* closed forms
 3. Oracle (independent of the model's answers): the Lean *spec* predicates judge the real
    outputs: coefficient n of the expansion of x(z) in 1/z is x[n]; IZT(ZT x)[n] = x[n]; A*h = B;
@@ -370,12 +370,6 @@ def run(chk, replay=None):
                                     'Lcapy/Driver/C13.lean', 'Lcapy/Model/CRat.lean'],
                       leanchecker=(chk.tier == 'thorough'))
     drv = chk.get_driver()
-    pend = os.path.join(common.VERIF, 'corpus', 'C13', 'proposed-known-findings.json')
-    if os.path.exists(pend):
-        # entries proposed to the coordinator for known-findings.json (same format); a `fixed` entry suppresses nothing
-        import json
-        have = {f.get('id') for f in chk.findings}
-        chk.findings += [f for f in json.load(open(pend)).get('findings', []) if f.get('property') == 'C13' and f.get('id') not in have]
     Lc = L()
     S = Lc.S
     chk.coverage['lcapy_under_test'] = os.path.dirname(Lc.lcapy.__file__)
@@ -391,7 +385,7 @@ def run(chk, replay=None):
                             'distinct by the raw descriptor' % NS)
     disagreements = []
     state = {'cex': 0, 'case': 0, 'cex_cases': set()}
-    chk.assumptions.append('z-transform advances (delay < 0) are outside the theorems (Base.ok) and are covered by the oracle only')
+    chk.assumptions.append('the model has the repaired behaviour for findings F17, F18, F21, F23-F26; on a tree that still has them the correspondence differs exactly where the oracle reports the known finding')
 
     def disagree(what, detail):
         chk.coverage['correspondence']['disagreements'] += 1
@@ -714,7 +708,14 @@ def run(chk, replay=None):
         chk.case(key, True)
         mv = drv.ask1('conv.model %s %s' % (lst(xv), lst(hv)))
         chk.coverage['correspondence']['compared'] += 1
-        if mv != lst(yv):
+
+        def strip0(txt):
+            # sequences are compared up to trailing zeros (Sequence.__eq__ prunes them; the first index is fixed)
+            v = flist(txt)
+            while v and v[-1] == 0:
+                v.pop()
+            return v
+        if strip0(mv) != strip0(lst(yv)):
             disagree('convolve', {'x': lst(xv), 'h': lst(hv), 'lcapy': lst(yv), 'model': mv})
         y0 = yn[0] if yn else x0 + h0
         bad = None
